@@ -307,3 +307,85 @@ def multi_assign_execute(cx):
                       z3.ForAll([j], z3.Implies(z3.And(i <= j, j < n), z3.Not(z3.Select(wr, body.t[j])))))
     cx.invariant(0, inv)
     cx.ensures(lambda st, r: z3.And(target_ok(st, n), r.t == prog.t if r.kind == 'obj' else z3.BoolVal(False)))
+
+
+@contract('program/transformer/constants_transformer.py', 'ConstantsTransformer.execute', ['C02', 'C01'])
+def constants_execute(cx):
+    """inlining of constants: a variable is replaced by a single value everywhere only if it is not assigned in the loop body, is assigned ONCE in
+    the initial block, unconditionally, by one polynomial whose value (after inlining the constants known at that point) mentions NO program
+    variable (D28); every initial assignment that is kept is rewritten with the constants known at ITS point of the block, and the initial
+    block is not rewritten again with the final map (D28b); guard and loop body are rewritten with the final map; every other constant c gets
+    c = c at the end of the loop body; inlined variables leave program.variables."""
+    init = cx.seq('initial', DRef('Assignment')); body = cx.seq('loop_body', DRef('Assignment')); pvars = cx.set('variables', DRef('Symbol'))
+    guard = cx.ref('loop_guard')
+    prog = cx.obj('Program', initial=init, loop_body=body, variables=pvars, loop_guard=guard)
+    cx.param(self=cx.obj('ConstantsTransformer'), program=prog)
+    VARA = z3.Function('assigned_variable', REF, REF)
+    POLY0 = z3.Function('first_polynomial', REF, REF); MENT = z3.Function('mentions_program_variable', REF, B)
+    INBODY = z3.Function('assigned_in_loop_body', REF, B); COUNT = z3.Function('assignments_in_initial_block', REF, I)
+    ISPOLY = z3.Function('is_PolyAssignment', REF, B); TRUEC = z3.Function('is_TrueCond', REF, B); COND = z3.Function('condition_of', REF, REF)
+    NPOLY = z3.Function('number_of_polynomials', REF, I)
+    cx.field('variable', lambda ex, st, o: V('ref', VARA(o.t))); cx.field('condition', lambda ex, st, o: V('ref', COND(o.t)))
+    cx.field('polynomials', lambda ex, st, o: V('polys', o.t))
+    cx.field('free_symbols', lambda ex, st, o: V('fs', o.t))
+    cx.isinstance(lambda ex, st, o, cls: ISPOLY(o.t) if cls == 'PolyAssignment' else TRUEC(o.t))
+
+    def comp(ex, st, c):
+        src = c.x['src']
+        if src.kind == 'seq' and src.t.eq(body.t): return V('bodyvars', None)       # {a.variable for a in program.loop_body}
+        if src.kind == 'seq' and src.t.eq(init.t): return V('initvars', None)       # [a.variable for a in program.initial]
+        return None
+    cx.set_hook('comprehension', comp); cx.set_hook('materialise', ('loop_body_vars', 'initial_vars'))
+    cx.set_hook('in_hook', lambda ex, st, a, b: INBODY(a.t) if b.kind == 'bodyvars' else None)
+    cx.call('count', lambda ex, st, r, a, kw: VI(COUNT(a[0].t)) if r.kind == 'initvars' else NotImplemented)
+    cx.set_hook('index_hook', lambda ex, st, o, i: V('ref', POLY0(o.t)) if o.kind == 'polys' else None)
+    cx.call('len', lambda ex, st, r, a, kw: VI(NPOLY(a[0].t)) if a[0].kind == 'polys' else NotImplemented)
+    cx.set_hook('binop', lambda ex, st, op, a, b: VB(MENT(a.t)) if (op == 'BitAnd' and a.kind == 'fs') else None)       # value.free_symbols & program.variables
+    # the constant map: domain + values; the ghost $version identifies the map in force (it changes with every store)
+    empty_map = V('map', (z3.K(REF, z3.Const('novalue', REF)), z3.K(REF, z3.BoolVal(False))), kk=DRef(), vk=DRef(), size=None)
+    cx.set_hook('empty_kinds', {'fixed_constants': empty_map, 'other_constants': D('set', elem=DRef()), 'new_initial_assignments': DSeq(DRef())})
+    SUBSV = z3.Function('value_after_inlining', REF, z3.ArraySort(REF, REF), z3.ArraySort(REF, B), REF)
+    cx.st.vars['$rewritten'] = V('opaque', z3.K(REF, z3.BoolVal(False)))        # assignment objects rewritten with the map in force at their point
+    cx.st.vars['$guard_done'] = VB(False); cx.st.vars['$body_done'] = VB(False); cx.st.vars['$initial_again'] = VB(False)
+    cx.set_hook('loop_ghosts', ['$rewritten'])
+
+    def subs(ex, st, r, a, kw):
+        m = a[0]
+        if m.kind != 'map' or r.kind != 'ref': raise OutOfReach('subs')
+        arr, dom = m.t
+        if r.t.eq(guard.t):
+            st.vars['$guard_done'] = VB(True); return VNone()
+        st.vars['$rewritten'] = V('opaque', z3.Store(st['$rewritten'].t, r.t, z3.BoolVal(True)))
+        return V('ref', SUBSV(r.t, arr, dom))
+    cx.call('subs', subs, trusted='Assignment/Condition/Expr.subs(map): simultaneous replacement of the mapped symbols')
+
+    def store(ex, st, o, k, v):
+        if not (o.kind == 'map' and k.kind == 'ref'): return False
+        # fixed_constants[var] = value
+        ex.need(st, z3.And(z3.Not(MENT(v.t)), z3.Not(INBODY(k.t)), COUNT(k.t) == 1), 'inlined-constant.is-a-fixed-value@0', 'ensures')
+        arr, dom = o.t
+        st.vars['fixed_constants'] = V('map', (z3.Store(arr, k.t, v.t), z3.Store(dom, k.t, z3.BoolVal(True))), kk=DRef(), vk=DRef(), size=None)
+        return True
+    cx.set_hook('subscript_store_hook', store)
+
+    def append(ex, st, r, a, kw):
+        nia = st.vars.get('new_initial_assignments')
+        if r.kind == 'seq' and nia is not None and nia.kind == 'seq' and (r.get('empty') and nia.get('empty') or (not r.get('empty') and not nia.get('empty') and r.t.eq(nia.t))):
+            ex.need(st, z3.Select(st['$rewritten'].t, a[0].t), 'kept-initial-assignment.rewritten-at-its-point@0', 'ensures')
+        return NotImplemented
+    cx.call('append', append)
+
+    def subs_in_assigns(ex, st, r, a, kw):
+        lst = a[0]
+        cur_init = st.heap[prog.t]['initial']
+        if lst.kind == 'seq' and cur_init.kind == 'seq' and lst.t.eq(cur_init.t): st.vars['$initial_again'] = VB(True)
+        elif lst.kind == 'seq' and lst.t.eq(body.t): st.vars['$body_done'] = VB(True)
+        else: raise OutOfReach('_subs_in_assigns on another list')
+        return VNone()
+    cx.call('_subs_in_assigns', subs_in_assigns, trusted='_subs_in_assigns(list, map): every assignment of the list is rewritten with the map')
+    cx.call('remove', lambda ex, st, r, a, kw: VNone())
+    cx.call('PolyAssignment.deterministic', lambda ex, st, r, a, kw: V('ref', ex.fresh(REF, 'keep_constant')))
+    cx.set_hook('map_iteration', lambda ex, st, m, what: (ex.fresh(I, 'n_fixed'), lambda i: VTuple(V('ref', ex.fresh(REF, 'c')), V('ref', ex.fresh(REF, 'v')))))
+    cx.invariant(0, lambda st: z3.BoolVal(True)); cx.invariant(1, lambda st: z3.BoolVal(True)); cx.invariant(2, lambda st: z3.BoolVal(True))
+    cx.replay = dict(kind='constants_inlining')
+    cx.ensures(lambda st, r: z3.And(st['$guard_done'].t, st['$body_done'].t, z3.Not(st['$initial_again'].t)))
